@@ -9,7 +9,7 @@ THEOREMS = ['C05_ampcons', 'C05_ampcons_dir', 'C05_ampcons_dir_both', 'C05_flank
             'C05_mono_steps', 'C05_mono_range', 'C05_rank', 'C05_rank_range', 'C05_rank_order']
 RULE = ("(a) synthetic tables: rise / decay voltages over small integers incl. 0 and negatives (NaN, -inf, clamp, ratios > 1), periods, volt_amp with ties, both "
         "centrings, directions both/next/last, n = 0..12; (b) tables from compute_features(burst_method='cycles') on generated signals (tie-rich quantised / clipped / "
-        "plateau families included), both centrings: amp_fraction, amp_consistency, period_consistency, monotonicity columns vs the Lean model and the centring-free "
+        "plateau families included), both centrings, row labels 0..n-1 / offset (a cut table) / reversed (positions, not labels, define neighbours): amp_fraction, amp_consistency, period_consistency, monotonicity columns vs the Lean model and the centring-free "
         "Lean specification (flank sequence; strict steps); NaN pattern exact, finite values within 1e-12; distinct = distinct inputs; non-trivial = >= 3 cycles")
 ASSUMPTIONS = ["pandas Series.rank(method='average'), np.nanmin, np.mean are transcribed primitives (E6)", "finite values compared within 1e-12 relative"]
 BATCH = 300
@@ -60,16 +60,24 @@ def generate(ctx):
         vals = [0, 0, 1, 1, 2, 3, 5, -1, -2] if rng.random() < 0.5 else [1, 2, 3, 4, 6]
         cases.append(dict(kind='table', pc=bool(rng.integers(2)), rises=[int(x) for x in rng.choice(vals, size=n)],
                           decays=[int(x) for x in rng.choice(vals, size=n)], periods=[int(x) for x in rng.integers(1, 9, size=n)],
-                          amps=[int(x) for x in rng.integers(0, 4, size=n)]))
+                          amps=[int(x) for x in rng.integers(0, 4, size=n)], lab=int(rng.choice([0, 0, 1, 2]))))
     fams = ['quantised', 'clipped', 'plateau', 'zeroed', 'bursty', 'noise', 'sum', 'asym', 'sine', 'chirp', 'dc', 'scaled']
     for i in range(ctx.scale(100, 1000)):
         s = gen.make_signal(ctx.sub_rng(i), family=fams[i % len(fams)])
         cases.append(dict(kind='signal', sig=proto.arr2hex(s['sig']), fs=s['fs'], f_range=list(s['f_range']),
-                          center=str(rng.choice(['peak', 'trough'])), family=s['family']))
+                          center=str(rng.choice(['peak', 'trough'])), family=s['family'], lab=int(rng.choice([0, 0, 1, 2]))))
     return cases
 
+def _relabel(df, lab):
+    """row labels other than 0..n-1 (a table cut by limit_df / iloc keeps its labels): 1 = offset, 2 = reversed."""
+    if lab == 1:
+        df = df.copy(); df.index = range(3, 3 + len(df))
+    elif lab == 2:
+        df = df.copy(); df.index = range(len(df) - 1, -1, -1)
+    return df
+
 def evaluate(ctx, cases):
-    from bycycle.features.burst import compute_amp_consistency, compute_period_consistency, compute_amp_fraction, compute_monotonicity
+    from bycycle.features.burst import compute_burst_features, compute_amp_consistency, compute_period_consistency, compute_amp_fraction, compute_monotonicity
     from bycycle.features import compute_features
     reqs, plan = [], []
     for c in cases:
@@ -77,6 +85,7 @@ def evaluate(ctx, cases):
             df = pd.DataFrame({'volt_rise': np.array(c['rises'], float), 'volt_decay': np.array(c['decays'], float),
                                'period': np.array(c['periods'], float), 'volt_amp': np.array(c['amps'], float),
                                ('sample_peak' if c['pc'] else 'sample_trough'): np.zeros(len(c['rises']), int)})
+            df = _relabel(df, c.get('lab', 0))
             pc, sig, x = c['pc'], None, None
         else:
             x = proto.hex2arr(c['sig'])
@@ -85,6 +94,8 @@ def evaluate(ctx, cases):
             except Exception as e:
                 plan.append(dict(skip=type(e).__name__)); continue
             pc = c['center'] == 'peak'
+            if c.get('lab', 0):
+                df = _relabel(df.iloc[2:] if c['lab'] == 1 else df, c['lab'])
         T = 'T' if pc else 'F'
         r, d = proto.enc_list(df['volt_rise'].values), proto.enc_list(df['volt_decay'].values)
         per, va = proto.enc_list(df['period'].values), proto.enc_list(df['volt_amp'].values)
@@ -116,11 +127,24 @@ def evaluate(ctx, cases):
         for name, impl, role in p['items']:
             if role == 'cols':
                 df = p['df']
-                for col, f in (('amp_fraction', lambda: compute_amp_fraction(df)), ('amp_consistency', lambda: compute_amp_consistency(df)),
-                               ('period_consistency', lambda: compute_period_consistency(df))):
-                    v = _wrap(f)
-                    if v[0] != 'ok' or not all((a != a and b != b) or a == b for a, b in zip(v[1], [float(t) for t in df[col].values])):
-                        judge_ok = False; info['column_' + col] = 'table column differs from the feature function'
+                fns = (('amp_fraction', lambda: compute_amp_fraction(df)), ('amp_consistency', lambda: compute_amp_consistency(df)),
+                       ('period_consistency', lambda: compute_period_consistency(df)))
+                if c.get('lab', 0) != 1:          # (a cut table's columns were computed before the cut)
+                    for col, f in fns:
+                        v = _wrap(f)
+                        if v[0] != 'ok' or not all((a != a and b != b) or a == b for a, b in zip(v[1], [float(t) for t in df[col].values])):
+                            judge_ok = False; info['column_' + col] = 'table column differs from the feature function'
+                if c.get('lab', 0):
+                    # compute_burst_features on a table with other row labels: the functions' values, row for row
+                    x = proto.hex2arr(c['sig'])
+                    try:
+                        bf = implutil.quiet(compute_burst_features, df, x)
+                        for col, f in fns + (('monotonicity', lambda: compute_monotonicity(df, x)),):
+                            u, w = [float(t) for t in bf[col].values], _wrap(f)[1]
+                            if len(u) != len(w) or not all((a != a and b != b) or a == b for a, b in zip(u, w)):
+                                judge_ok = False; info['relabelled_' + col] = 'compute_burst_features on a table with row labels %s differs row for row' % list(df.index[:3])
+                    except Exception as e:
+                        judge_ok = False; info['relabelled'] = type(e).__name__ + ': ' + str(e)[:100]
                 continue
             a = ans[j]; j += 1
             ok = _same(impl, a)
